@@ -12,7 +12,7 @@ class C14(SCheck):
     K = {"quick": 3, "thorough": 4}
     technique = "deterministic simulation: seeded schedules (umask, mknod, mkdir of different threads interleaved), one injected errno at mknod/unlink calls, snapshot oracle (node type, rdev, mode) + supervisor trace (no open/read of a special source)"
     rule = ("case = FIFOs / sockets / character devices with random (major, minor) and modes, as sole source or inside a tree, umask in {0,022}, "
-            "fresh or existing destination entry, optionally --no-clobber, block devices (must fail); x driver x schedules; non-trivial = at "
+            "fresh or existing destination entry, optionally --no-clobber / --ownership / --no-perms, up to five nodes per run, block devices (must fail); x driver x 3 schedules (umask, mknod and mkdir calls of different threads interleave), plus one errno at sampled mknod/unlink calls; non-trivial = at "
             "least one special node was selected; distinct by signature")
     assumptions = ["runs as root (mknod of device nodes)", "nodes are created on tmpfs and never opened by the harness"]
 
